@@ -31,6 +31,7 @@ fn main() {
     match (args[1].as_str(), args[2].as_str()) {
         ("replay", "limits") => limits::replay(&args[3], &args[4]),
         ("record", "limits") => limits::record_limits(&args[3]),
+        ("record", "session") => limits::record_session(&args[3]),
         ("record", "samples") => limits::record_samples(&args[3]),
         ("replay", "chain") => chain::replay(&args[3], &args[4]),
         ("replay", "chainik") => chain::replay_ik(&args[3], &args[4]),
